@@ -59,6 +59,8 @@ def shards(tier):
         out.append(dict(name='eq_%d' % i, module='harness.c03', fn='eq', consts=dict(i=i), budget_s=60 if q else 300))
     for n1 in ((0, 2, 3) if q else range(5)):
         for n2 in range(4 if q else 5):
+            if q and (n1, n2) not in ((0, 0), (0, 2), (2, 1), (3, 0), (2, 2), (0, 3)):
+                continue
             for o1 in OPS:
                 if o1 == D.UNWATCH and q:
                     continue
